@@ -408,11 +408,101 @@ func c14R3(c *Ctx) {
 			}
 		}
 		c.Check(okLoop, "C14.R3", "IPv6 source loop runs over exactly the four 32-bit words", p.Pos(loop), v6.Key(), "for i := 0; i < 4; i++ (constant bound)", "bounds not constant 0..4")
-		// loop variable not modified in the body; no early exit
+		// --- which word does iteration i read, and where does it put it? ---
+		// Two addressing schemes give "word i": a cursor that advances by one word in every
+		// iteration (mask = mask[4:]) read at its start, or a fixed slice read at offset 4·i.
+		adv := map[types.Object]bool{}
+		for _, s := range loop.Body.List {
+			if as, isAs := s.(*ast.AssignStmt); isAs && len(as.Lhs) == 1 && len(as.Rhs) == 1 {
+				if se, isSe := ast.Unparen(as.Rhs[0]).(*ast.SliceExpr); isSe && se.High == nil && identObj(info, se.X) == identObj(info, as.Lhs[0]) {
+					if v, isC := constInt(info, se.Low); isC && v == 4 {
+						adv[identObj(info, as.Lhs[0])] = true
+					}
+				}
+			}
+		}
+		// lin evaluates x as a·i + b over the loop variable (through single-definition locals)
+		var lin func(x ast.Expr, depth int) (a, b int64, ok bool)
+		lin = func(x ast.Expr, depth int) (int64, int64, bool) {
+			if depth > 6 {
+				return 0, 0, false
+			}
+			x = ast.Unparen(x)
+			if v, isC := constInt(info, x); isC {
+				return 0, v, true
+			}
+			switch t := x.(type) {
+			case *ast.Ident:
+				if info.ObjectOf(t) == iObj {
+					return 1, 0, true
+				}
+				if d := derefExpr(v6, t); d != ast.Expr(t) {
+					return lin(d, depth+1)
+				}
+			case *ast.CallExpr:
+				if info.Types[t.Fun].IsType() && len(t.Args) == 1 {
+					return lin(t.Args[0], depth+1)
+				}
+			case *ast.BinaryExpr:
+				a1, b1, ok1 := lin(t.X, depth+1)
+				a2, b2, ok2 := lin(t.Y, depth+1)
+				if !ok1 || !ok2 {
+					return 0, 0, false
+				}
+				switch t.Op {
+				case token.ADD:
+					return a1 + a2, b1 + b2, true
+				case token.SUB:
+					return a1 - a2, b1 - b2, true
+				case token.MUL:
+					if a1 == 0 {
+						return b1 * a2, b1 * b2, true
+					}
+					if a2 == 0 {
+						return a1 * b2, b1 * b2, true
+					}
+				}
+			}
+			return 0, 0, false
+		}
+		// wordOf: the expression reads the 32-bit word of iteration i from base slice `which`
+		wordOf := func(x ast.Expr) (base types.Object, ok bool, how string) {
+			call, isCall := ast.Unparen(derefExpr(v6, x)).(*ast.CallExpr)
+			if !isCall || len(call.Args) != 1 || !strings.HasSuffix(exprString(call.Fun), "BigEndian.Uint32") {
+				return nil, false, "not a BigEndian.Uint32 read"
+			}
+			arg := ast.Unparen(call.Args[0])
+			if o := identObj(info, arg); o != nil {
+				if adv[o] {
+					return o, true, "cursor"
+				}
+				return o, false, "slice " + o.Name() + " is read at its start but never advanced"
+			}
+			if se, isSe := arg.(*ast.SliceExpr); isSe && se.Low != nil {
+				o := identObj(info, se.X)
+				a, b, okL := lin(se.Low, 0)
+				if o != nil && okL && a == 4 && b == 0 && !adv[o] {
+					if se.High != nil {
+						ha, hb, okH := lin(se.High, 0)
+						if !okH || ha != 4 || hb != 4 {
+							return o, false, "upper bound is not 4·i+4"
+						}
+					}
+					return o, true, "indexed"
+				}
+				return o, false, "slice offset is not 4·i of a fixed slice"
+			}
+			return nil, false, "unrecognised operand " + exprString(arg)
+		}
+		// loop variable not modified in the body; the only early exit is skipping a zero mask word
 		var early []string
+		cursorMode := len(adv) > 0
 		ast.Inspect(loop.Body, func(nd ast.Node) bool {
 			switch t := nd.(type) {
 			case *ast.BranchStmt:
+				if t.Tok == token.CONTINUE && !cursorMode {
+					return true // judged below with the guards of the append
+				}
 				early = append(early, t.Tok.String())
 			case *ast.ReturnStmt:
 				early = append(early, "return")
@@ -422,36 +512,38 @@ func c14R3(c *Ctx) {
 						early = append(early, "assignment to the loop variable")
 					}
 				}
+			case *ast.IncDecStmt:
+				if identObj(info, t.X) == iObj {
+					early = append(early, "assignment to the loop variable")
+				}
 			}
 			return true
 		})
-		c.Check(len(early) == 0, "C14.R3", "IPv6 source loop visits every word", p.Pos(loop), v6.Key(), "no break/continue/return, loop variable untouched", strings.Join(early, ","))
+		c.Check(len(early) == 0, "C14.R3", "IPv6 source loop visits every word", p.Pos(loop), v6.Key(), "no break/return, loop variable untouched; a cursor is never skipped past", strings.Join(early, ","))
 		// offset 8 + 4*i
 		offs := offOf(v6, "Off")
 		okOff := false
 		if len(offs) == 1 {
-			e := NewFactEngine(p, v6)
-			var paths []string
-			l := e.linearOf(offs[0], e.fnScope(), &paths)
-			// 4*i is a product: accept syntactically 8 + 4*i
-			s := strings.ReplaceAll(exprString(offs[0]), " ", "")
-			okOff = s == "int32(8+4*"+iObj.Name()+")" || s == "int32(4*"+iObj.Name()+"+8)"
-			_ = l
+			a, b, okL := lin(offs[0], 0)
+			okOff = okL && a == 4 && b == 8
 		}
-		c.Check(okOff, "C14.R3", "IPv6 source word i at offset 8 + 4·i", p.Pos(loop), v6.Key(), "Off: int32(8 + 4*i)", fmt.Sprintf("%d Off fields", len(offs)))
-		// the cursor advances unconditionally: top-level statements `mask = mask[4:]` and `val = val[4:]`
-		adv := 0
-		for _, s := range loop.Body.List {
-			if as, isAs := s.(*ast.AssignStmt); isAs && len(as.Lhs) == 1 && len(as.Rhs) == 1 {
-				if se, isSe := ast.Unparen(as.Rhs[0]).(*ast.SliceExpr); isSe && se.High == nil && identObj(info, se.X) == identObj(info, as.Lhs[0]) {
-					if v, isC := constInt(info, se.Low); isC && v == 4 {
-						adv++
-					}
-				}
-			}
+		c.Check(okOff, "C14.R3", "IPv6 source word i at offset 8 + 4·i", p.Pos(loop), v6.Key(), "Off = 8 + 4·i", fmt.Sprintf("%d Off fields", len(offs)))
+		// mask and value of the key are word i of the mask and of the address
+		masks, vals := offOf(v6, "Mask"), offOf(v6, "Val")
+		okWords, detail := false, "Mask / Val fields not found"
+		var maskBase types.Object
+		if len(masks) == 1 && len(vals) == 1 {
+			mb, okM, howM := wordOf(masks[0])
+			vb, okV, howV := wordOf(vals[0])
+			maskBase = mb
+			okWords = okM && okV && mb != nil && vb != nil && mb != vb
+			detail = "mask: " + howM + "; value: " + howV
 		}
-		c.Check(adv == 2, "C14.R3", "mask and value cursors advance by one word in every iteration", p.Pos(loop), v6.Key(), "mask = mask[4:]; val = val[4:] at the top level of the loop body", fmt.Sprintf("%d unconditional advances", adv))
-		// the append is guarded only by `word mask != 0`
+		c.Check(okWords, "C14.R3", "mask and value of key i are word i of the mask and of the address", p.Pos(loop), v6.Key(), "BigEndian.Uint32 of the i-th word (advancing cursor, or slice at 4·i)", detail)
+		if cursorMode {
+			c.Check(len(adv) == 2, "C14.R3", "mask and value cursors advance by one word in every iteration", p.Pos(loop), v6.Key(), "mask = mask[4:]; val = val[4:] at the top level of the loop body", fmt.Sprintf("%d unconditional advances", len(adv)))
+		}
+		// the append is reached for every word whose mask is not zero, and only skipped for those
 		nApp := 0
 		ast.Inspect(loop.Body, func(nd ast.Node) bool {
 			as, isAs := nd.(*ast.AssignStmt)
@@ -462,35 +554,17 @@ func c14R3(c *Ctx) {
 				return true
 			}
 			nApp++
-			var conds []string
-			for _, k := range pathTo(loop.Body, as) {
-				if is, isIf := k.(*ast.IfStmt); isIf {
-					conds = append(conds, exprString(is.Cond))
-				}
+			// the word-mask variable
+			var mObj types.Object
+			if len(masks) == 1 {
+				mObj = identObj(info, masks[0])
 			}
-			okG := len(conds) == 0
-			if len(conds) == 1 {
-				// m != 0 with m := BigEndian.Uint32(mask)
-				if be, isBe := ast.Unparen(func() ast.Expr {
-					for _, k := range pathTo(loop.Body, as) {
-						if is, isIf := k.(*ast.IfStmt); isIf {
-							return is.Cond
-						}
-					}
-					return nil
-				}()).(*ast.BinaryExpr); isBe && be.Op == token.NEQ {
-					if v, isC := constInt(info, be.Y); isC && v == 0 {
-						if o := identObj(info, be.X); o != nil {
-							for _, d := range varDefs(v6, o) {
-								if d.rhs != nil && strings.Contains(exprString(d.rhs), "Uint32(mask)") {
-									okG = true
-								}
-							}
-						}
-					}
-				}
+			if mObj == nil {
+				c.Undec("C14.R3", "IPv6 source key emitted for every word with a non-zero mask", p.Pos(as), v6.Key(), "", "the key's Mask is not a local holding the word mask")
+				return true
 			}
-			c.Check(okG, "C14.R3", "IPv6 source key emitted for every word with a non-zero mask", p.Pos(as), v6.Key(), "append guarded by nothing or by `wordMask != 0` only", "guards: "+strings.Join(conds, " && "))
+			_ = maskBase
+			c.RequireReached("C14.R3", "IPv6 source key emitted for every word with a non-zero mask", v6, loop.Body, as, mObj.Name()+" != 0", nil)
 			return true
 		})
 		c.Check(nApp == 1, "C14.R3", "one key per IPv6 word", p.Pos(loop), v6.Key(), "a single append in the loop", fmt.Sprintf("%d", nApp))
